@@ -85,6 +85,9 @@ func (c16) Plan(tier string, seed int64) []core.Scenario {
 			out = append(out, core.Sc("revformat").WithN("fmt", f).WithN("order", order))
 		}
 	}
+	for i := 0; i < 3; i++ {
+		out = append(out, core.Sc("stale-reverse-answer").WithN("fk", i%2).WithN("old", 1+i))
+	}
 	for i := range out {
 		out[i].Seed = seed*122949829 + int64(i)
 		out[i] = out[i].WithN("noise", i%3)
@@ -111,6 +114,8 @@ func (p c16) Run(sc core.Scenario) core.Result {
 		p.aliasIsolation(sc, r)
 	case "revformat":
 		p.revFormat(sc, r)
+	case "stale-reverse-answer":
+		p.staleReverseAnswer(sc, r)
 	}
 	return r.Result()
 }
@@ -569,4 +574,71 @@ func (c16) revFormat(sc core.Scenario, r *core.R) {
 	}
 	r.Key(fmt.Sprintf("revformat %s order=%d", fm.name, sc.I("order")), true)
 	r.Sample(map[string]interface{}{"scenario": "reverse calls under a non-default formatter", "formatter": fm.name, "option_order": sc.I("order")})
+}
+
+// staleReverseAnswer: client-side handlers of reverse calls are still running when the connection breaks
+// and is re-established (they ignore their context); on the new connection the server makes new reverse
+// calls - its per-connection reverse client numbers them from 1 again - and only then the old handlers
+// finish. Every new reverse call must get the answer its own handler produced.
+func (c16) staleReverseAnswer(sc core.Scenario, r *core.R) {
+	kind := []string{wsproxy.RST, wsproxy.FIN}[sc.I("fk")]
+	nOld := sc.I("old")
+	env := NewEnv(EnvOpt{Rev: true})
+	defer env.Shutdown()
+	c, err := env.NewClient(ClientOpt{RevIdent: "A", Opts: []jsonrpc.Option{jsonrpc.WithReconnectBackoff(5*time.Millisecond, 20*time.Millisecond)}})
+	if err != nil {
+		r.Inconclusive("client: %v", err)
+		return
+	}
+	bg := context.Background()
+	var oldToks []string
+	for i := 0; i < nOld; i++ {
+		t := Tok("o")
+		c.RevSvc.Hold(t + ".r0")
+		go c.Rev(bg, t, 1, 4)
+		if !c.RevSvc.WaitEntered(t+".r0", core.Grace) {
+			r.Inconclusive("old reverse handler never entered")
+			return
+		}
+		oldToks = append(oldToks, t)
+	}
+	env.Px.KillAll(kind)
+	if !probeUntilHealthy(c, r, 2*core.Grace) {
+		r.Inconclusive("link never healthy again")
+		return
+	}
+	var news []*Outcome
+	for i := 0; i < nOld; i++ {
+		t := Tok("n")
+		c.RevSvc.Hold(t + ".r0")
+		news = append(news, Go(t, func() (string, error) { return c.Rev(bg, t, 1, 4) }))
+		if !c.RevSvc.WaitEntered(t+".r0", core.Grace) {
+			r.Inconclusive("new reverse handler never entered")
+			return
+		}
+	}
+	// now the handlers that belong to the old connection finish
+	for _, t := range oldToks {
+		c.RevSvc.Release(t + ".r0")
+	}
+	time.Sleep(150 * time.Millisecond)
+	for _, o := range news {
+		c.RevSvc.Release(o.Tok + ".r0")
+	}
+	for _, o := range news {
+		if !o.Wait(core.Grace) {
+			r.Violate("reverse-hang", "a forward call with a nested reverse call on the re-established connection never returned")
+			continue
+		}
+		want := "A/" + o.Tok + ".r0"
+		if o.Err == nil && o.Val != want {
+			r.Violate("reverse-foreign-answer", "a reverse call made on the re-established connection (%s after %s) was answered with %q, the result of a handler started for the old connection; its own handler would have returned %q", "new connection", kind, o.Val, want)
+		} else if o.Err != nil {
+			r.Violate("reverse-foreign-answer", "a reverse call made on the re-established connection failed (%v) after handlers of the old connection finished", o.Err)
+		}
+	}
+	r.Key(fmt.Sprintf("stale-reverse-answer %s old=%d", kind, nOld), true)
+	r.Obs("reverse_calls", int64(2*nOld))
+	r.Sig(core.Log.Signature())
+	r.Sample(map[string]interface{}{"scenario": "old client-side reverse handlers finish after a reconnect while new reverse calls are in flight", "old_handlers": nOld})
 }
